@@ -27,6 +27,8 @@ type Ledger struct {
 	Fung    [][]byte
 	NFT     [][]byte
 	Alias   [][]byte
+	Dup     []byte   // a token with TWO creators (outside the single-creator discipline): equal nonces with different hashes exist
+	DupCreators []string
 	Users   []string // user names (all shards)
 	SCs     []string
 	DNS     []string
@@ -88,6 +90,7 @@ func NewLedger(seed int64, traceNo int, profile string, t *world.Tracer) (*Ledge
 	d.P = &world.Proj{W: w, Scale: d.Scale}
 	d.Fung = [][]byte{[]byte("F1"), []byte("FT-2")}
 	d.NFT = [][]byte{[]byte("N"), []byte("SFT-9")}
+	d.Dup = []byte("DUP-7")
 	// ids that alias other keys when concatenated with a nonce
 	d.Alias = [][]byte{[]byte("N\x01"), []byte("N\x02"), {}, []byte("F"), []byte("SFT-9\x01"), []byte("N\x01\x00")}
 	for _, a := range addrs {
@@ -114,14 +117,6 @@ func NewLedger(seed int64, traceNo int, profile string, t *world.Tracer) (*Ledge
 		acc.Balance = new(big.Int).Mul(big.NewInt(int64(10+i)), d.Scale)
 		w.Shards[ai.Shard].Accounts[string(ai.Bytes)] = acc
 	}
-	// an account that already holds an NFT under (N, nonce 1) with another hash and other metadata (a credit onto it must be refused)
-	if traceNo%2 == 1 {
-		ai := w.Info(d.Users[len(d.Users)-1])
-		acc := w.Shards[ai.Shard].Accounts[string(ai.Bytes)]
-		e := &esdt.ESDigitalToken{Type: 1, Value: new(big.Int).Set(d.Scale), TokenMetaData: &esdt.MetaData{Nonce: 1, Name: []byte("foreign"), Hash: []byte("other-hash"), URIs: [][]byte{[]byte("x")}}}
-		b, _ := e.Marshal()
-		acc.Storage["ELRONDesdtN\x01"] = b
-	}
 	// the second NFT token starts with a creator whose counter sits just below a byte boundary (nonces 255/256, 65535/65536 are reached by a few creates)
 	{
 		cr := d.Users[(traceNo+1)%len(d.Users)]
@@ -142,7 +137,9 @@ func NewLedger(seed int64, traceNo int, profile string, t *world.Tracer) (*Ledge
 	}
 	issued := append(append([][]byte{}, d.Fung...), d.NFT...)
 	ev := world.AEvent{A: "init", Res: "ok"}
-	if err := t.Write(&world.ALine{Ev: ev, Cfg: d.P.CfgOf(issued, traceNo, profile), W: d.P.World()}, map[string]interface{}{"kind": "init", "seed": seed, "trace": traceNo, "profile": profile}); err != nil {
+	cfgA := d.P.CfgOf(issued, traceNo, profile)
+	cfgA.Dup = []string{fmt.Sprintf("%x", d.Dup)}
+	if err := t.Write(&world.ALine{Ev: ev, Cfg: cfgA, W: d.P.World()}, map[string]interface{}{"kind": "init", "seed": seed, "trace": traceNo, "profile": profile}); err != nil {
 		return nil, err
 	}
 	return d, nil
@@ -1168,6 +1165,24 @@ func (d *Ledger) Setup() {
 	}
 	for i := 0; i < 4; i++ {
 		d.actCreate()
+	}
+	// the two-creator token: both creators mint nonce 1 (and maybe 2) with different hashes
+	d.DupCreators = []string{d.Users[0], d.Users[len(d.Users)-1]}
+	for i, u := range d.DupCreators {
+		c := d.call("ESDTSetRole", "esdtsc", u, d.Dup, []byte("ESDTRoleNFTCreate"), []byte("ESDTRoleNFTAddQuantity"))
+		c.Gas = 600000
+		d.record("exec", d.shardOfName(u), c)
+		for k := 0; k < 1+i; k++ {
+			cc := d.call("ESDTNFTCreate", u, u, d.Dup, d.amt(3), []byte("dup"), nb(5), []byte(fmt.Sprintf("hash-%d", i)), []byte("a"), []byte("u"))
+			cc.Gas = 600000
+			d.record("exec", d.shardOfName(u), cc)
+		}
+	}
+	// no further creates of the two-creator token (a creator holding the other's same-nonce copy would overwrite it)
+	for _, u := range d.DupCreators {
+		c := d.call("ESDTUnSetRole", "esdtsc", u, d.Dup, []byte("ESDTRoleNFTCreate"))
+		c.Gas = 600000
+		d.record("exec", d.shardOfName(u), c)
 	}
 }
 
